@@ -752,7 +752,7 @@ def r_no_shadowing_captures(ctx: Ctx, rule: str) -> None:
         "no `match` pattern captures into a name that the module already uses for a class, function or import: a bare "
         "`Name` sub-pattern is a capture that matches any value (and re-binds that name for the rest of the function), so "
         "an arm written as `operation=Chain` instead of `operation=Chain()` takes every operation for a chain",
-        expected_min=20,
+        expected_min=3,
     )
     n = 0
     for mod in m.modules.values():
